@@ -203,6 +203,8 @@ pub struct Node {
     pub sizes: SizeMax,
     pub last_save_frame: i32,
     pub sync_requests_at_running: Option<usize>,
+    /// connection status after the first tick in which some player was flagged disconnected
+    pub cs_at_first_disconnect: Option<Vec<(bool, i32)>>,
     pub fin: Final,
 }
 
@@ -296,6 +298,7 @@ fn new_node(idx: usize, addr: Addr, is_spec: bool, host: Option<usize>, locals: 
         sizes: SizeMax::default(),
         last_save_frame: -1,
         sync_requests_at_running: None,
+        cs_at_first_disconnect: None,
         fin: Final::default(),
     }
 }
@@ -454,6 +457,10 @@ impl<P: Pred> World<P> {
                 f.running = x.current_state() == SessionState::Running;
                 f.sizes = x.verif_sizes();
                 f.undrained_events = f.sizes.event_queue;
+                if f.cs.iter().any(|c| c.0) && self.core.nodes[ni].cs_at_first_disconnect.is_none() {
+                    let cs = self.core.nodes[ni].fin.cs.clone();
+                    self.core.nodes[ni].cs_at_first_disconnect = Some(cs);
+                }
             }
             Sess::Spec(x) => {
                 f.current_frame = x.current_frame();
